@@ -634,6 +634,8 @@ def rule_o(rep, src):
                 coll(c)
 
     ifs = [n for n in find(si.body, "if") if n["cond"]["k"] == "letcond" and "Union" in show(n["cond"]["pat"], 60)]
+    # the same branch written as an arm: `match set { DataType::Union(union) => .., _ => .. }`
+    ifs += [{"then": a["body"], "l": a.get("l", m.get("l", 0))} for m in find(si.body, "match") for a in m["arms"] if a["pat"]["k"] == "tuplestruct" and a["pat"]["path"]["segs"][-1] == "Union" and not a.get("guard")]
     if len(ifs) != 1:
         rep.undecidable("O", key, "no `if let DataType::Union(union) = set` branch", si.where())
     else:
